@@ -395,7 +395,7 @@ func init() {
 		_ = t0
 	}
 	ev.Register(&ev.Check{
-		ID: "C07", Level: "exploration", Workers: 16, QuickSecs: 150, ThorSecs: 1500,
+		ID: "C07", Level: "exploration", Workers: 16, QuickSecs: 270, ThorSecs: 1500,
 		Rule: "every token string <= n tokens (n=4 quick / 5 thorough) and every single-byte corruption (12 hostile bytes at every position) and truncation of every JSON tree <= 3/4 nodes, through 27 entry points (Unmarshal into 15 destination types, Valid, Get with and without path, Skip, Preorder, ~45 ast accessors and mutators on the node built from the input, the stream decoder fed one byte per Read); " +
 			"nesting-depth grid {1,64,4095,4096,4097,65536,10^6,4*10^6} x {array, object, mixed} x {closed, unclosed} x entry points; at the depth limit and one level either side of it, 15 innermost leaves (one per number / string / literal / container scanner path) x shapes x entry points; encoder: cyclic pointer/map/slice/interface graphs, 100..100000-deep linked and nested values, every unsupported kind at depth 0-2, through Marshal / ConfigStd.Marshal / Encode with all-options; " +
 			"error objects: Error()/Description() for ALL (Pos, len(Src)) in [-40,len+40] x [0,80] of decoder.SyntaxError, ast.SyntaxError, MismatchTypeError. Oracle: no panic, worker process survives (a death is attributed to the announced case and confirmed 5x in isolation), Decode consumes or errors, every returned error has a bounded message and a position inside the input. " +
